@@ -26,7 +26,7 @@ META = {
                           'judged_neighbors_raw', 'members_checked'],
     'shards': {'quick': 16, 'thorough': 16},
     'exhaustive': {'quick': 'all 682 boolean tables <= 3x3 x all object subsets for neighbors()',
-                   'thorough': 'all boolean tables <= 3x3, 3x4, 4x3 x all object subsets'},
+                   'thorough': 'all boolean tables <= 3x3, 3x4, 4x3, 4x4 x all object subsets'},
     'assumptions': ['order inside the neighbor tuples and order of neighbors() output are not judged here (C06)'],
 }
 
